@@ -74,6 +74,9 @@ Unreach(e) == { <<If(<<[c |-> EV(e), ch |-> <<Elem("x", <<>>, <<>>)>>]>>, FALSE,
                      <<For(SV("ab"), "item", "index", "", <<Elem("w", <<>>, <<For(SV("a"), "x", "y", "", <<Elem("x", <<>>, <<>>)>>)>>), Elem("v", <<Attr("class", "", EV(e))>>, <<>>)>>)>> }
               \* a deferred call has no value the specification can unfold as a list
               \cup (IF e.k = "call" THEN {} ELSE {<<For(EV(e), "item", "index", "", <<Text(<<P(Id("item"))>>)>>)>>})
+(* family UC (a part of UB that the quick tier replays in full instead of sampling): which function is CALLED depends on b *)
+UC == {FileD(<<BmEl(e1, EB)>>) : e1 \in {Call(Cond(EB, Id("f"), Id("g")), <<EA>>), Call(Idx(Obj(<<Named("t1", Id("f"))>>), EB), <<EA>>),
+                                         Call(Mem(Obj(<<Named("k", Cond(EB, Id("f"), Id("g")))>>), "k"), <<EA>>)}}
 UB == {FileD(<<BmEl(EA, EB)>> \o u) : u \in UNION {Unreach(e) : e \in {EA, Mem(Id("o"), "p"), Idx(Id("l"), EB), Arr(<<Hole, Item(Id("s"))>>),
                                                                   Obj(<<Short("s")>>), Cond(Id("s"), EA, Lit("1")), Call(Id("f"), <<Id("s")>>)}}}
       (* ONE binding mentioning two fields, the first of which is used at an unreachable position LATER in the document
@@ -82,6 +85,9 @@ UB == {FileD(<<BmEl(EA, EB)>> \o u) : u \in UNION {Unreach(e) : e \in {EA, Mem(I
                                   Attr("plain", "p", EV(Arr(<<Item(EA), Item(Id("s"))>>)))>>,
                           <<Text(<<P(EA), S("/"), P(Mem(Id("o"), "p"))>>)>>)>> \o u) : u \in Unreach(EA)}
       \cup {FileD(<<BmEl(e1, e2)>>) : e1 \in Exprs, e2 \in {EB, Mem(Id("o"), "p")}}
+      (* a field read in the CALLEE of a call (which function is called depends on b), the same field also bound plainly:
+         b stays advertised, and its updaters must include the call's bindings *)
+      \cup UC
       \cup {FileD(<<Text(<<P(EA), S("-"), P(EB)>>), Block(<<Text(<<P(Mem(Id("o"), "p"))>>), Elem("j", <<Attr("data:", "k", EV(Id("s")))>>, <<>>)>>),
                     Elem("o", <<Attr("id", "", EV(EB))>>, <<Elem("i", <<Attr("style", "", EV(EA)), Attr("mark:", "m", EV(Id("l")))>>, <<>>)>>)>>)}
       \cup UA
@@ -117,7 +123,11 @@ PairForms(x, y) == { File1(<<Text(<<P(x), S(" / "), P(y)>>)>>),
                      File1(<<Elem("v", <<Attr("plain", "p", EV(Arr(<<Item(x), Item(y)>>)))>>, <<>>)>>),
                      File1(<<Elem("v", <<Attr("class", "", MV(<<S("c "), P(x), S(" "), P(y)>>))>>, <<>>)>>),
                      File1(<<If(<<[c |-> EV(Bin("===", x, y)), ch |-> <<Elem("y", <<>>, <<>>)>>]>>, TRUE, <<Elem("n", <<>>, <<>>)>>)>>),
-                     File1(<<Text(<<P(Cond(Id("t"), x, y))>>)>>) }
+                     File1(<<Text(<<P(Cond(Id("t"), x, y))>>)>>),
+                     (* both paths inside an operand that is written in parentheses (lower or equal level on the right / under a
+                        unary operator / under a member): `'<' + (x + y)`, `!(x && y)`, `(x ?? y) + '>'` *)
+                     File1(<<Text(<<P(Bin("+", Lit("'<'"), Bin("+", x, y)))>>)>>),
+                     File1(<<Elem("v", <<Attr("plain", "p", EV(Un("!", Bin("&&", x, y)))), Attr("data:", "k", EV(Bin("+", Bin("??", x, y), Lit("'>'"))))>>, <<>>)>>) }
 (* object literals merging several spread sources: a change marked on ANY of them - as a whole or on one member - counts *)
 DefS == [n |-> "s", ch |-> <<Text(<<S("["), P(Id("p")), S("|"), P(Id("q")), S("|"), P(Id("r")), S("|"), P(Id("k")), S("]")>>)>>]
 SpreadObjs == { Obj(<<Spread(Id("o")), Spread(Id("o2"))>>), Obj(<<Spread(Id("o2")), Spread(Id("o"))>>),
@@ -151,8 +161,11 @@ UPEdits(d) ==
 (* l-value paths under update (C11): bindings whose path depends on data - a dynamic key, a conditional between data
    objects or between script modules - re-evaluated by a tree update or by the binding-map updaters of that field *)
 ULExprsM == { Idx(Id("o"), Id("b")), Cond(Id("c"), Mem(Id("o"), "p"), Mem(Id("o2"), "p")), Mem(Cond(Id("c"), Id("o"), Id("o2")), "p"),
-              Mem(Idx(Id("l"), Id("i")), "v") }
-ULExprsS == { Cond(Id("c"), Mem(Id("m"), "f"), Mem(Id("x"), "f")), Mem(Cond(Id("c"), Id("m"), Id("x")), "f"), Cond(Id("c"), Mem(Id("m"), "f"), Id("a")) }
+              Mem(Idx(Id("l"), Id("i")), "v"),
+              (* a negated condition: the branch follows the condition's value, before and after c changes *)
+              Cond(Un("!", Id("c")), Mem(Id("o"), "p"), Mem(Id("o2"), "p")), Mem(Cond(Un("!", Un("!", Id("c"))), Id("o"), Id("o2")), "p") }
+ULExprsS == { Cond(Id("c"), Mem(Id("m"), "f"), Mem(Id("x"), "f")), Mem(Cond(Id("c"), Id("m"), Id("x")), "f"), Cond(Id("c"), Mem(Id("m"), "f"), Id("a")),
+              Cond(Un("!", Id("c")), Mem(Id("m"), "f"), Mem(Id("x"), "f")) }
 UL ==    {FileS(<<Elem("v", <<Attr("model:", "v", EV(e))>>, <<>>)>>) : e \in ULExprsM}
     \cup {FileS(<<Elem("v", <<Attr(f, "tap", EV(e))>>, <<>>)>>) : f \in {"bind", "catch"}, e \in ULExprsS}
     \cup {FileS(<<Elem("v", <<Attr("change:", "p", EV(e))>>, <<>>)>>) : e \in ULExprsS}
@@ -162,7 +175,7 @@ ULEdits(d) == { <<[p |-> <<"c">>, v |-> VB(~GetS(d, "c").b)]>>,
                 <<[p |-> <<"b">>, v |-> Alt(GetS(d, "b"), VS("q"), VS("p"))]>>,
                 <<[p |-> <<"i">>, v |-> VI(0)]>>, <<[p |-> <<"a">>, v |-> Alt(GetS(d, "a"), VI(5), VI(1))]>> }
 
-UCases == CASE Family = "UL" -> UL [] Family = "UP" -> UP [] Family = "UB" -> UB [] Family = "UA" -> UA [] Family = "UT" -> UT [] Family = "UD" -> UD [] Family = "UI" -> UI
+UCases == CASE Family = "UL" -> UL [] Family = "UP" -> UP [] Family = "UB" -> UB [] Family = "UC" -> UC [] Family = "UA" -> UA [] Family = "UT" -> UT [] Family = "UD" -> UD [] Family = "UI" -> UI
             [] Family = "US" -> US [] Family = "F2" -> F2 [] Family = "F4" -> F4 [] Family = "F5" -> F5 [] Family = "F6" -> F6
 
 UDatas == IF Family = "F6" THEN {DS} ELSE IF Family = "UP" THEN {DP} ELSE IF Family = "UL" THEN {DL, DL2} ELSE {D1, D5, D3}
@@ -203,7 +216,7 @@ BMUpdate(f, v) ==
        /\ hist' = Append(hist, [op |-> "bm", field |-> f, data |-> d2, tree |-> TreeOf(d2)])
        /\ UNCHANGED <<files, d0>>
 
-INext == IF Family = "UB"
+INext == IF Family \in {"UB", "UC"}
          THEN \E f \in {"a", "b", "o", "l", "s", "f"} \cup (IF files \in UN THEN ProtoNames ELSE {}), v \in BmValues : BMUpdate(f, v)
          ELSE IF Family = "UL"
          THEN \/ \E es \in EditMenu(data), kind \in CoverKinds : Update(es, kind)
@@ -216,5 +229,5 @@ InstanceInv == hist # <<>> => hist[Len(hist)].tree = TreeOf(data)
 
 IEmit == Len(hist) = MaxLen =>
            PrintT(<<"CASE", ToJson([files |-> files, data |-> d0, tree |-> TreeOf(d0), hist |-> hist,
-                                    inel |-> IF Family = "UB" THEN Ineligible(IGroup["a"]) ELSE {}])>>)
+                                    inel |-> IF Family \in {"UB", "UC"} THEN Ineligible(IGroup["a"]) ELSE {}])>>)
 =============================================================================
